@@ -298,13 +298,21 @@ Definition save_and_log (a : assets) (x : st) (ri : nat) (sr : option stepref)
   match trunc value (max_result_chars (a_opts a)) with
   | None => Panicked
   | Some v =>
-      match get_run (session_ x) ri with
-      | None => Done x tt
-      | Some r =>
-          let res := {| res_name := name; res_value := v; res_cat := catname; res_node := nodeid; res_input := input |} in
-          let '(rs, changed) := save_result (r_results r) res in
-          let x := with_session x (fun s => upd_run s ri (run_set_results rs)) in
-          Done (if changed then log_event x ri sr (EResultChanged name v catname) else x) tt
+      (* the input kept with a result: routeVia (routers/base.go) truncates the operand it KEEPS like any other
+         evaluated template (the tests saw all of it), so a router that reads back its own result cannot grow the
+         session from visit to visit; set_run_result keeps no input ("" is unchanged by the truncation).  The
+         truncation is written here, once, because both callers pass what they keep through this function. *)
+      match trunc_ellipsis input (max_template_chars (a_opts a)) with
+      | None => Panicked
+      | Some kept =>
+          match get_run (session_ x) ri with
+          | None => Done x tt
+          | Some r =>
+              let res := {| res_name := name; res_value := v; res_cat := catname; res_node := nodeid; res_input := kept |} in
+              let '(rs, changed) := save_result (r_results r) res in
+              let x := with_session x (fun s => upd_run s ri (run_set_results rs)) in
+              Done (if changed then log_event x ri sr (EResultChanged name v catname) else x) tt
+          end
       end
   end.
 
